@@ -2,7 +2,7 @@
    Theorems about Model/SemModel.v (the futex semaphore over a modelled kernel futex
    with adversarial early returns).  Statements only; proofs in Proof/SemProof.v. *)
 From NsyncBase Require Import CSem.
-From NsyncGen Require Import Consts Sites.
+From NsyncGen Require Import Consts Sites Time.
 From NsyncModel Require Import SemModel.
 From NsyncProof Require Import SemProof.
 From Coq Require Import List ZArith.
@@ -17,17 +17,49 @@ Section C12.
   Hypothesis Hposts : total_posts posts < 2 ^ 31.   (* the count fits the int futex word *)
   Let w := run (init prog posts clock0) sched.
 
-  (* the word is exactly #V - #P and never negative *)
+  (* the word is exactly #V - #P (successful CASes) and never negative *)
   Theorem C12_count : word w = nV w - nP w /\ 0 <= word w.
   Proof. exact (count_reachable prog posts clock0 sched Hposts). Qed.
 
-  (* a wait never returns success without a post: successes are exactly the decrementing CASes *)
-  Theorem C12_no_free_lunch : ret0 w = nP w /\ nP w <= nV w.
+  (* count conservation over the WORD.  [ret0 w] is the number of calls in the log of returns [rets w] whose
+     result is 0 (the log is appended to where a call returns, not where a counter is bumped);
+     [posts_pending w] is read off the posters' program counters (V calls whose CAS has not succeeded yet).
+     Every one of the posters' V calls is still pending, or sits in the word, or was consumed by a call that
+     returned 0: a wait never returns 0 without a post, and no post disappears. *)
+  Theorem C12_conservation :
+    ret0 w + word w + posts_pending w = total_posts posts /\ 0 <= word w /\ 0 <= posts_pending w /\ 0 <= ret0 w.
+  Proof. exact (conservation_reachable prog posts clock0 sched Hposts). Qed.
+
+  (* the same against the ghost count of successful V CASes: posts made = successful Ps + current count;
+     so the number of 0-returns never exceeds the number of V's whose CAS succeeded *)
+  Theorem C12_no_free_lunch : nV w = ret0 w + word w /\ ret0 w <= nV w /\ nV w <= total_posts posts.
   Proof. exact (no_free_lunch_reachable prog posts clock0 sched Hposts). Qed.
 
-  (* ETIMEDOUT is reported only at or after the deadline, whatever the kernel returned early *)
-  Theorem C12_timeout_sound : early w = 0.
+  (* ETIMEDOUT is reported only at or after the deadline, whatever the kernel returned early.
+     The clock is READ in one step of the model (value rd, logged) and compared with the deadline in a LATER
+     step (translated nsync_time_cmp of Gen/Time.v on the logged value): for every call in the log that
+     returned ETIMEDOUT, its argument d is a deadline of the program, the C comparison  cmp (d, rd) <= 0  held
+     for a value rd that was read from the clock during that call (not before its first step, not after now),
+     and for a normalized deadline that is  d <= rd <= clock  as instants.  No hypothesis on the program. *)
+  Theorem C12_timeout_sound : forall e rd, In e (rets w) -> ce_res e = ResTimedOut rd ->
+    exists d, ce_arg e = Some d /\ In (Some d) prog /\
+      nsync_time_cmp (to_ts d) (to_ts rd) <= 0 /\ normalized rd /\
+      ce_begin e <= tm_ns rd <= clock w /\
+      (normalized d -> tm_ns d <= tm_ns rd).
   Proof. exact (timeout_sound_reachable prog posts clock0 sched). Qed.
+
+  (* the form about the result the caller has just seen *)
+  Theorem C12_last_timeout : SemModel.last w = RTimedOut ->
+    exists e l d rd, rets w = e :: l /\ ce_arg e = Some d /\ ce_res e = ResTimedOut rd /\ In (Some d) prog /\
+      nsync_time_cmp (to_ts d) (to_ts rd) <= 0 /\ normalized rd /\
+      ce_begin e <= tm_ns rd <= clock w /\
+      (normalized d -> tm_ns d <= tm_ns rd).
+  Proof. exact (last_timeout_reachable prog posts clock0 sched). Qed.
+
+  (* the log of returns follows the program: completed calls, the current one (if any), the remaining ones *)
+  Theorem C12_log_faithful : exists cur, (length cur <= 1)%nat /\ (owner w = OIdle -> cur = []) /\
+    rev (map ce_arg (rets w)) ++ cur ++ oprog w = prog.
+  Proof. exact (log_faithful_reachable prog posts clock0 sched). Qed.
 
   (* no lost post: whenever the owner sleeps in the kernel, the count is 0 or a poster is about to wake it *)
   Theorem C12_no_lost_post : owner_asleep w = true -> word w = 0 \/ pending_wake w.
@@ -38,8 +70,11 @@ Section C12.
   Proof. exact (no_crash_reachable prog posts clock0 sched). Qed.
 End C12.
 
-(* a post makes a pending wait return: from any reachable world with a positive count, the owner running
-   alone (kernel behaving normally) completes its current call successfully within 3 steps *)
+(* a post makes a PRESENT wait return: from any reachable world with a positive count and the owner inside a
+   call and not asleep in the kernel, the owner running alone (kernel behaving normally) completes the call within
+   4 steps; it returns 0 and takes one post -- except that a call which the kernel has already told ETIMEDOUT and
+   which is reading / has read the clock (pc TClock / TDecide) may report that timeout, leaving the post in place.
+   (A sleeping owner is the subject of C12_no_lost_post: a wake-up is pending.) *)
 (* CORRECTION (SemProof): the hypothesis [prog_ok prog] was added -- a deadline with an unnormalized nsec
    field in the owner's pc makes the kernel reject the timespec (EINVAL) instead of retrying the wait.
    (Before the repair of the C source this also covered deadlines before the epoch, finding F1; those are
@@ -51,16 +86,62 @@ Theorem C12_solo : forall prog posts clock0 sched,
   prog_ok prog ->
   let w := run (init prog posts clock0) sched in
   0 < word w -> owner w <> OIdle -> owner w <> OCrash -> owner_asleep w = false ->
-  (forall d, owner w <> TClock d) ->
-  exists n, (n <= 3)%nat /\
-    let w' := run w (repeat (Owner, CNormal) n) in owner w' = OIdle /\ SemModel.last w' = ROk /\ ret0 w' = ret0 w + 1.
+  exists n, (n <= 4)%nat /\
+    let w' := run w (repeat (Owner, CNormal) n) in
+    owner w' = OIdle /\
+    ((SemModel.last w' = ROk /\ ret0 w' = ret0 w + 1 /\ word w' = word w - 1) \/
+     (SemModel.last w' = RTimedOut /\ word w' = word w /\
+      exists d, owner w = TClock d \/ exists rd, owner w = TDecide d rd)).
 Proof. exact solo_reachable. Qed.
+
+(* a post makes a FUTURE wait return: with a positive count and an idle owner, the next call -- plain or timed,
+   whatever its deadline (expired, before the epoch, not normalized) and whatever the kernel would do (c1, c2) --
+   returns 0 after exactly one load and one successful CAS that takes one post: it never enters the kernel.
+   No hypothesis on the program. *)
+Theorem C12_future : forall prog posts clock0 sched a rest c1 c2,
+  total_posts posts < 2 ^ 31 ->
+  let w := run (init prog posts clock0) sched in
+  owner w = OIdle -> oprog w = a :: rest -> 0 < word w ->
+  let w1 := fst (step w Owner c1) in
+  let w2 := fst (step w1 Owner c2) in
+  (exists s, snd (step w Owner c1) = EvLoad s (word w)) /\
+  (exists s, snd (step w1 Owner c2) = EvCas s (word w) (word w - 1) true) /\
+  owner w2 = OIdle /\ SemModel.last w2 = ROk /\ word w2 = word w - 1 /\
+  rets w2 = mk_ce a (clock w) ResOk :: rets w /\ oprog w2 = rest.
+Proof. exact future_reachable. Qed.
+
+(* NOT PROVED (and not claimed, DESIGN.md 2.3): the temporal form "under every fair schedule a wait with a post
+   available returns".  What is proved is its safety decomposition: a sleeping owner with a positive count always has a
+   wake-up pending (C12_no_lost_post), an owner that is awake inside a call completes it within 4 own steps
+   (C12_solo), an idle owner's next call returns 0 in 2 steps (C12_future). *)
+Definition C12_fair_wakeup_full : Prop :=
+  forall prog posts clock0 (s : nat -> actor * choice),
+    total_posts posts < 2 ^ 31 -> prog_ok prog ->
+    (forall a n, exists m, (n <= m)%nat /\ fst (s m) = a) ->     (* every actor is scheduled again and again *)
+    forall n, 0 < word (run (init prog posts clock0) (map s (seq 0 n))) ->
+              owner (run (init prog posts clock0) (map s (seq 0 n))) <> OIdle ->
+    exists m, (n <= m)%nat /\ owner (run (init prog posts clock0) (map s (seq 0 m))) = OIdle.
 
 Example C12_example : exists sched,
   let w := run (init [None; Some (mk_tm 0 5000)] [1%nat; 1%nat] 1000) sched in
   ret0 w = 2 /\ nV w = 2 /\ word w = 0 /\ owner w = OIdle.
 Proof. exact example_two_posts. Qed.
 
-Print Assumptions C12_count. Print Assumptions C12_no_free_lunch. Print Assumptions C12_timeout_sound.
-Print Assumptions C12_no_lost_post. Print Assumptions C12_no_crash. Print Assumptions C12_solo.
-Print Assumptions C12_example.
+(* a run with an injected EINTR, an early ETIMEDOUT of the kernel that is NOT believed (clock read 1000 < 5000:
+   retry), a sleep, a real timeout (clock read at 5500, decision taken at 5600), then a second call that sleeps
+   and is ended by a post; the events of the eight interesting owner steps are listed *)
+Example C12_example_eintr_timeout_post :
+  let w := run (init [Some (mk_tm 0 5000); Some (mk_tm 0 9000)] [1%nat] 1000) sched_eintr_timeout_post in
+  rets w = [ mk_ce (Some (mk_tm 0 9000)) 5600 ResOk; mk_ce (Some (mk_tm 0 5000)) 1000 (ResTimedOut (mk_tm 0 5500)) ] /\
+  SemModel.last w = ROk /\ word w = 0 /\ nV w = 1 /\ clock w = 5600 /\ owner w = OIdle /\
+  map (fun n => snd (step (run (init [Some (mk_tm 0 5000); Some (mk_tm 0 9000)] [1%nat] 1000) (firstn n sched_eintr_timeout_post)) Owner
+                          (snd (nth n sched_eintr_timeout_post (Owner, CNormal)))))
+      [1; 3; 4; 5; 7; 9; 10; 12]%nat
+  = [ EvFutexWait EINTR; EvFutexWait ETIMEDOUT; EvClock (mk_tm 0 1000); EvDecide false;
+      EvFutexWait 0; EvFutexWait ETIMEDOUT; EvClock (mk_tm 0 5500); EvDecide true ].
+Proof. exact example_eintr_timeout_post. Qed.
+
+Print Assumptions C12_count. Print Assumptions C12_conservation. Print Assumptions C12_no_free_lunch.
+Print Assumptions C12_timeout_sound. Print Assumptions C12_last_timeout. Print Assumptions C12_log_faithful.
+Print Assumptions C12_no_lost_post. Print Assumptions C12_no_crash. Print Assumptions C12_solo. Print Assumptions C12_future.
+Print Assumptions C12_example. Print Assumptions C12_example_eintr_timeout_post.
